@@ -44,6 +44,14 @@ type vfScenario struct {
 	Back   int64     `json:"back"`
 	Steps  []vfStep  `json:"steps"`
 	ImgCpt bool      `json:"imgcpt"` // take + recover an image after every file-system step of every compaction
+	// Preflush: at aof.flush.enter of the primary instance (records waiting in the write buffer, nothing of this flush on
+	// disk yet) the directory is copied: a crash image at a syscall boundary.  The last few are recovered at the final stop,
+	// each followed by a second epoch (value-carrying writes) and a third start.
+	Preflush int `json:"preflush"`
+	// Leftover: every image of a compaction in which rewrite.aof.tmp exists (partial output at a flush of the tmp file,
+	// complete output at "tmp-written") is also STARTED WITH its start-up compaction (which finds the leftover tmp files),
+	// stopped, and started once more: that third start is compared with the reference directory.
+	Leftover bool `json:"leftover"`
 }
 
 type vfStep struct {
@@ -375,6 +383,8 @@ type vfDriver struct {
 	cptNeeded  bool     // held mode: a rotation asked for a compaction
 	trigger    string   // what started the compaction being observed: admin | startup | startup-held | "" (= size threshold)
 	cptTrigs   []string // per finished run
+	preImgs    []string // directory images taken at aof.flush.enter (newest last)
+	cptPartial []vfCptImg // images taken while the running compaction was writing rewrite.aof.tmp (they join its run at "tmp-written")
 }
 
 var vfCur *vfDriver // the driver whose primary world the hooks observe (one scenario at a time per process)
@@ -415,6 +425,33 @@ func vfHook(name string, a interface{}, b interface{}) {
 		d.mu.Lock()
 		d.flushes = append(d.flushes, vfFlushEv{Phase: ph, File: filepath.Base(f.filename), Size: vfFileSize(f.filename), DSize: vfFileSize(f.filename + ".dat")})
 		d.mu.Unlock()
+		if ph == "enter" && d.sc.Leftover && d.sc.ImgCpt && f != aof.aofFile && filepath.Base(f.filename) == "rewrite.aof.tmp" && vfFileSize(f.filename) > 12 && f.windex > 0 && d.w != nil {
+			// the compaction is writing its output: a crash here leaves a PARTIAL rewrite.aof.tmp(.dat) behind
+			d.cptMu.Lock()
+			n := len(d.cptPartial)
+			d.cptMu.Unlock()
+			if n < 2 {
+				aof.aofGlock.Lock()
+				_, dir := d.newImgDirLocked()
+				vfCopyDir(d.w.dir, dir)
+				aof.aofGlock.Unlock()
+				d.cptMu.Lock()
+				d.cptPartial = append(d.cptPartial, vfCptImg{Step: "tmp-partial", Dir: dir})
+				d.cptMu.Unlock()
+			}
+		}
+		if ph == "enter" && d.sc.Preflush > 0 && f.windex > 0 && f == aof.aofFile && d.w != nil {
+			// the caller holds aofGlock: the files are exactly what a stop at this instant leaves behind
+			_, dir := d.newImgDirLocked()
+			vfCopyDir(d.w.dir, dir)
+			d.mu.Lock()
+			d.preImgs = append(d.preImgs, dir)
+			if len(d.preImgs) > d.sc.Preflush {
+				os.RemoveAll(d.preImgs[0])
+				d.preImgs = d.preImgs[1:]
+			}
+			d.mu.Unlock()
+		}
 	case "aof.fs":
 		if a.(*Aof) != aof {
 			return
@@ -463,6 +500,10 @@ func (d *vfDriver) onFsStep(step string) {
 	}
 	d.cptMu.Lock()
 	d.inCpt = true
+	if step == "tmp-written" && len(d.cptPartial) > 0 {
+		d.cptImgs = append(d.cptImgs, d.cptPartial...)
+		d.cptPartial = nil
+	}
 	d.cptMu.Unlock()
 	if strings.HasPrefix(step, "removed:") {
 		d.cptMu.Lock()
@@ -577,6 +618,29 @@ func vfCompactNow(aof *Aof) {
 	}
 	verifPoint("aof.fs", aof, "tmp-written")
 	aof.clearRewriteAofFiles(aofFilenames)
+}
+
+// vfFreezeCompaction: wait for a running compaction of this instance, then keep Aof.isRewriting set for good (a goroutine that
+// starts later returns at its guard) and register the instance as held (vfClose then skips WaitRewriteAofFiles).
+func vfFreezeCompaction(aof *Aof) {
+	for i := 0; i < 2000; i++ {
+		aof.glock.Lock()
+		if !aof.isRewriting {
+			aof.isRewriting = true
+			aof.glock.Unlock()
+			vfSetHeld(aof)
+			return
+		}
+		held := false
+		vfHeldMu.Lock()
+		held = vfHeld[aof]
+		vfHeldMu.Unlock()
+		aof.glock.Unlock()
+		if held {
+			return
+		}
+		time.Sleep(5 * time.Millisecond)
+	}
 }
 
 // instances whose Aof.isRewriting is kept set for good (the driver runs their compactions itself)
@@ -1038,6 +1102,34 @@ func (d *vfDriver) stepStop(st *vfStep) {
 		d.cuts(img, st)
 	}
 	os.RemoveAll(img)
+	if d.sc.Preflush > 0 && len(st.Epoch2) > 0 {
+		d.preflushEpochs(st)
+	}
+}
+
+// preflushEpochs: every saved aof.flush.enter image is a crash image (a stop while records wait in the write buffer).
+// Start on it (child process first), run the second epoch on the recovered instance, stop, start again.
+func (d *vfDriver) preflushEpochs(st *vfStep) {
+	d.mu.Lock()
+	imgs := d.preImgs
+	d.preImgs = nil
+	d.mu.Unlock()
+	for i, dir := range imgs {
+		tag := map[string]interface{}{"role": "preflush", "ord": i}
+		if !d.probeChild(dir) {
+			d.recoverImageChild(dir, tag, true)
+			os.RemoveAll(dir)
+			continue
+		}
+		w2 := d.recoverImage(dir, tag, true, true)
+		if w2 != nil {
+			stopDir := d.secondEpochBody(w2, st.Epoch2, "cut")
+			d.recoverImageChild(stopDir, map[string]interface{}{"role": "stop2", "ctx": "cut", "after": "preflush"}, true)
+			d.tr.Emit(map[string]interface{}{"e": "e2end", "ctx": "cut"})
+			os.RemoveAll(stopDir)
+		}
+		os.RemoveAll(dir)
+	}
 }
 
 // cuts: torn-write images of the newest append file of image img.
@@ -1321,6 +1413,35 @@ func (d *vfDriver) emitRun(run int, imgs []vfCptImg, removed []string, trig stri
 			d.recoverImage(ref, map[string]interface{}{"role": "cptref", "run": run, "step": im.Step, "trigger": trig}, true, false)
 			os.RemoveAll(ref)
 			d.recoverImage(im.Dir, map[string]interface{}{"role": "cptimg", "run": run, "step": im.Step, "trigger": trig, "final": final}, true, false)
+			if d.sc.Leftover && (im.Step == "tmp-written" || im.Step == "tmp-partial") {
+				// the restart on this crash image runs its start-up compaction on a directory that still holds the
+				// interrupted one's rewrite.aof.tmp(.dat); the files it publishes are what the NEXT start recovers
+				_, work := d.newImgDirLocked()
+				vfCopyDir(im.Dir, work)
+				mt, _ := vfMemTrace()
+				w2, _ := vfOpen(d.t, d.sc.Cfg, work, mt, time.Now().Unix(), "sync")
+				if w2 != nil {
+					vfClose(w2, false)
+					_, ref2 := d.newImgDirLocked()
+					os.MkdirAll(ref2, 0755)
+					for _, n := range vfListFiles(pre) {
+						if inputs[n] {
+							vfCopyFile(filepath.Join(pre, n), filepath.Join(ref2, n), -1)
+						}
+					}
+					for _, n := range vfListFiles(im.Dir) {
+						if inputs[n] || strings.HasPrefix(n, "rewrite.aof") {
+							continue
+						}
+						vfCopyFile(filepath.Join(im.Dir, n), filepath.Join(ref2, n), -1)
+					}
+					step2 := "restart-compaction-after:" + im.Step
+					d.recoverImage(ref2, map[string]interface{}{"role": "cptref", "run": run, "step": step2, "trigger": trig}, true, false)
+					os.RemoveAll(ref2)
+					d.recoverImageChild(work, map[string]interface{}{"role": "cptimg", "run": run, "step": step2, "trigger": trig, "final": false}, true)
+				}
+				os.RemoveAll(work)
+			}
 		}
 	}
 	for _, im := range imgs {
@@ -1362,6 +1483,10 @@ func (d *vfDriver) stepRestart(st *vfStep) {
 	dir := w.dir
 	d.tr.Emit(map[string]interface{}{"e": "stop", "rt": w.now - d.base, "cuts": "", "ctx": "restart"})
 	d.w = nil
+	// the old process is gone: no compaction of it may start any more.  `go rewriteAofFiles()` of its last rotation can still be
+	// waiting to be scheduled (a busy machine): it would run concurrently with the start-up compaction of the new instance in the
+	// same directory (both append to rewrite.aof.tmp - duplicated records), which a real restart cannot do.
+	vfFreezeCompaction(w.slock.aof)
 	if !st.Hard {
 		vfClose(w, false)
 	}
